@@ -176,3 +176,60 @@ func inPlacePolicyIsNormalisedLikeAFreshStart(c *core.Ctx) {
 		c.Check(n >= 1, rule, "in-place writers of "+fname, 0, "no writer of the field besides the constructor found (the reload path was confirmed by hand: peer.replace…FilterChain)")
 	}
 }
+
+// neighborOverridesPerDirection: a neighbor inherits its group's import and export policies and replaces EACH of them
+// only when it configures that direction itself.  In BGPNeighbor.load the reset of the inherited ImportFilterChain is
+// controlled by conditions on the neighbor's import list only, and the reset of ExportFilterChain by the export list
+// only — a shared condition ("either is set") drops the inherited policy of the direction the neighbor did not touch,
+// which a reload then installs as "no policy".
+func neighborOverridesPerDirection(c *core.Ctx) {
+	const rule = "policy-override-is-per-direction"
+	p := c.P
+	const cfg = "cmd/bio-rd/config"
+	f := c.MustFunc(cfg + ".(*BGPNeighbor).load")
+	if f == nil {
+		return
+	}
+	c.Analysed(f)
+	dirs := []struct{ chain, list, otherList string }{
+		{"ImportFilterChain", "Import", "Export"},
+		{"ExportFilterChain", "Export", "Import"},
+	}
+	for _, d := range dirs {
+		chainF := p.Field(cfg, "BGPNeighbor", d.chain)
+		otherF := p.Field(cfg, "BGPNeighbor", d.otherList)
+		ownF := p.Field(cfg, "BGPNeighbor", d.list)
+		if chainF == nil || otherF == nil || ownF == nil {
+			c.Check(false, rule, "BGPNeighbor."+d.chain, f.Decl.Pos(), "fields not found")
+			continue
+		}
+		n := 0
+		ast.Inspect(f.Decl.Body, func(nd ast.Node) bool {
+			as, ok := nd.(*ast.AssignStmt)
+			if !ok || len(as.Lhs) != 1 || len(as.Rhs) != 1 || core.FieldOf(f.Pkg, as.Lhs[0]) != chainF {
+				return true
+			}
+			if _, isLit := core.Unparen(as.Rhs[0]).(*ast.CompositeLit); !isLit {
+				return true // not the reset
+			}
+			n++
+			bad := ""
+			own := false
+			for _, ft := range core.CtlFactsAt(f, as) {
+				if ft.Expr == nil {
+					continue
+				}
+				if core.MentionsField(f.Pkg, ft.Expr, otherF) {
+					bad = core.ExprString(ft.Expr)
+				}
+				if core.MentionsField(f.Pkg, ft.Expr, ownF) {
+					own = true
+				}
+			}
+			c.Check(bad == "" && own, rule, fmt.Sprintf("%s resets the inherited %s only for its own %s list", f.Name(), d.chain, d.list), as.Pos(),
+				fmt.Sprintf("the inherited %s is dropped under `%s`, a condition on the neighbor's %s list: a neighbor that configures only one direction loses the group's policy of the other, and a reload installs the empty chain for it", d.chain, bad, d.otherList))
+			return true
+		})
+		c.Check(n >= 1, rule, d.chain+" reset found", f.Decl.Pos(), "BGPNeighbor.load does not reset the inherited "+d.chain)
+	}
+}
